@@ -142,7 +142,7 @@ def _load_with_fuel(data, with_peek=True, bs=8192):
     zlib_real = jc.zlib
     jc.zlib = _ZMod()
     try:
-        with H.Watchdog(20):
+        with H.Watchdog(90):
             try:
                 return ("value", joblib.load(CountingReader(data, fuel, with_peek)))
             except Fuel as e:
@@ -282,7 +282,7 @@ def ob_memory(k: int, junk: bool) -> bool:
         probs = []
         with memlib.env(fs, clock):
             try:
-                with H.Watchdog(20):
+                with H.Watchdog(90):
                     memlib.fresh_process()
                     ns = memlib.define(fs, "c14mod", MEM_SRC)
                     g = memlib.new_memory(compress=_PLAN["mem_compress"]).cache(ns["f"])
